@@ -115,6 +115,15 @@ func c10Queue(b []byte) *tds.PacketQueue {
 	return q
 }
 
+// c10QueueOpen is c10Queue without the end-of-message status on the packet.
+func c10QueueOpen(b []byte) *tds.PacketQueue {
+	q := tds.NewPacketQueue(func() int { return 512 })
+	p := &tds.Packet{Data: b}
+	p.Header.Length = uint16(8 + len(b))
+	q.AddPacket(p)
+	return q
+}
+
 func c10TokenName(tok byte, pkg tds.Package) string {
 	if _, ok := pkg.(*tds.TokenlessPackage); ok {
 		return "TOKENLESS"
@@ -156,6 +165,12 @@ func c10Offset(q tds.BytesChannel, total int) int {
 // for KEY.
 func c10ParseStream(b []byte, measure bool, wrap func(*tds.PacketQueue) tds.BytesChannel, unrouted bool, visit func(*c10Attempt)) {
 	q := c10Queue(b)
+	if len(b)%2 == 1 {
+		// every other input arrives in a packet WITHOUT the end-of-message
+		// status (a first or middle packet of a longer response): what a
+		// parser may allocate must not depend on more packets being possible
+		q = c10QueueOpen(b)
+	}
 	var ch tds.BytesChannel = q
 	if wrap != nil {
 		ch = wrap(q)
